@@ -272,13 +272,19 @@ class PureWaiters:
                 self.use[n] += v
             self.res.append(dict(pos))
 
-    def release(self, i):
+    def release(self, i, part=None):
         if not self.res:
             return
         m = self.res[i % len(self.res)]
-        for n, v in m.items():
-            self.use[n] -= v
-        m.clear()
+        if part and len(m) >= 2:
+            # an explicit dictionary: everything of the first resource held, nothing (0) of the others
+            first = next(iter(m))
+            self.use[first] -= m[first]
+            del m[first]
+        else:
+            for n, v in m.items():
+                self.use[n] -= v
+            m.clear()
         self.pending += 1
 
     def register(self, req, beh, mutate=False, twice=False):
@@ -347,9 +353,15 @@ class RealWaiters:
             if self.depth:
                 self.c['reserved_in_callback'] += 1
 
-    def release(self, i):
+    def release(self, i, part=None):
         if self.res:
-            self.res[i % len(self.res)].release()
+            r = self.res[i % len(self.res)]
+            held = r.reserved_resources
+            if part and len(held) >= 2:
+                keys = list(held)
+                r.release({k: (held[k] if k == keys[0] else 0) for k in keys})
+            else:
+                r.release()
 
     def register(self, req, beh, mutate=False, twice=False):
         if twice:
